@@ -263,8 +263,10 @@ def op_text(model, sg, op, kind):
         lo, hi = act_range(opt(op, 0, "b", 0), so, zo, T[outs[0]]["type"])
         g = [[lo, hi, m, s, opt(op, 0, "b", 0)]]
     elif kind in ("MINIMUM", "MAXIMUM"):
-        if not (qparams(T[ins[0]]) == qparams(T[ins[1]]) == qparams(T[outs[0]])):
-            raise NotSimulated(f"{kind}:quantisation_differs")
+        # the reference kernel (maximum_minimum.cc) takes the minimum / maximum of the raw values whatever the
+        # quantisation parameters are (Prepare only compares the types)
+        if len({T[i]["type"] for i in ins[:2] + outs[:1]}) != 1:
+            raise NotSimulated(f"{kind}:types_differ")
     elif kind in ("RELU", "RELU6", "RELU_N1_TO_1"):
         si, _ = one_scale(T[ins[0]], kind)
         so, zo = one_scale(T[outs[0]], kind)
